@@ -310,6 +310,15 @@ func (f *File) enterWriteMode() error {
 
 		// Read existing file into buffer
 		if exists {
+			// A buffer that could not be filled must not be kept: later writes would go on top of partial or unverified content
+			dropWriteBuf := func() {
+				_ = f.writeBuf.Close()
+				_ = f.cleanWriteBuf()
+
+				f.writeBuf = nil
+				f.cleanWriteBuf = nil
+			}
+
 			if err := f.readOps.Restore(
 				func(path string, mode fs.FileMode) (io.WriteCloser, error) {
 					// Don't close the file here, we want to re-use it!
@@ -324,6 +333,8 @@ func (f *File) enterWriteMode() error {
 				"",
 				true,
 			); err != nil {
+				dropWriteBuf()
+
 				return err
 			}
 		}
@@ -451,6 +462,16 @@ func (f *File) readWithoutLocking(p []byte) (n int, err error) {
 	f.readPos += int64(n)
 	if err == io.EOF {
 		return n, io.EOF
+	}
+
+	if err == nil && n > 0 && f.readPos >= f.info.Size() {
+		// These are the last bytes, but the stream reports i.e. a failed verification only when it ends. Wait for that
+		// and hand out nothing if it failed: callers like `io.ReadFull` drop the error of a read that filled their buffer
+		if _, err := io.Copy(io.Discard, f.readOpReader); err != nil {
+			f.readPos -= int64(n)
+
+			return 0, err
+		}
 	}
 
 	if err != nil {
